@@ -331,9 +331,42 @@ pub fn run(args: &Args) -> i32 {
                         o += wire::build_ext_object(ob).len();
                     }
                     offsets.push(ext_off); // version nibble
+                    // object boundaries inside the message (start of object k = bounds[k], end of the last = bounds[n])
+                    let mut bounds = vec![ext_off + 4];
+                    for ob in objs {
+                        bounds.push(bounds.last().unwrap() + wire::build_ext_object(ob).len());
+                    }
                     let mut cases: Vec<Vec<u8>> = vec![];
                     for t in 0..=icmp.len() {
                         cases.push(icmp[..t].to_vec());
+                        // "for malformed structures parsing stops": a message cut inside the list of
+                        // objects yields exactly the objects that are still whole, byte for byte
+                        if t > ext_off + 4 && !objs.is_empty() {
+                            if let Ok(Ok((_, Some(e)))) = mc::catch(|| view_split(v6, u.te, &icmp[..t])) {
+                                let whole = bounds.iter().skip(1).filter(|b| **b <= t).count();
+                                let got = mc::catch(|| {
+                                    let Ok(xp) = trippy_packet::icmp_extension::extension_structure::ExtensionsPacket::new_view(&e) else { return None };
+                                    let mut v: Vec<Vec<u8>> = vec![];
+                                    for ob in xp.objects().take(64) {
+                                        if let Ok(o) = trippy_packet::icmp_extension::extension_object::ExtensionObjectPacket::new_view(ob) {
+                                            let mut b = vec![];
+                                            b.extend_from_slice(&o.get_length().to_be_bytes());
+                                            b.push(o.get_class_num().id());
+                                            b.push(o.get_class_subtype().0);
+                                            b.extend_from_slice(o.payload());
+                                            v.push(b);
+                                        }
+                                    }
+                                    Some(v)
+                                });
+                                if let Ok(Some(got)) = got {
+                                    let want: Vec<Vec<u8>> = objs.iter().take(whole).map(wire::build_ext_object).collect();
+                                    if got != want {
+                                        add(&mut local, format!("truncated-structure-objects-differ:{}", if v6 { "v6" } else { "v4" }), format!("[{ctx}] message cut at octet {t} of {}: {} whole object(s) expected, parsed {} ({:02x?})", icmp.len(), want.len(), got.len(), got.last()), json!({"check":"C14","ctx":ctx,"icmp":icmp[..t].to_vec()}), t);
+                                    }
+                                }
+                            }
+                        }
                     }
                     for off in offsets {
                         if off >= icmp.len() {
@@ -418,7 +451,7 @@ pub fn run(args: &Args) -> i32 {
     rep.set("object_lists", json!(lists.len()));
     rep.set("units", json!(units.len()));
     rep.observe("distinct_rfc4884_length_attribute_values", json!(c.3.len()));
-    rep.set("rule", json!("{v4,v6} x {TimeExceeded, DestinationUnreachable} x parse mode {on,off} x protocol {icmp, udp/dublin, tcp} x layout {RFC 4884 compliant, legacy 128} x every quoted-prefix length giving a distinct length attribute (plus unaligned neighbours) x all object lists of length <= 3 (quick) / 4 (thorough) (+ no extension structure at all) over 11 object shapes (MPLS depth 1-3 with boundary label/EXP/S/TTL, incl. a last entry without the S bit and an S bit before the end of the object; an empty stack - RFC 4950 requires at least one entry - belongs to the corruptions, classes 2,3,255, sizes 4/5/7/8/12); oracle: views return the original-datagram field and the extension structure byte-exactly, recv_probe reports exactly the encoded objects in order. Corruptions of a subset: every truncation point and all 256 values of the length attribute, of every object-length octet and of the version octet: no panic, iteration under ceiling, payload/extension inside the message and disjoint. Non-trivial = message carries >= 1 object, or is a corruption"));
+    rep.set("rule", json!("{v4,v6} x {TimeExceeded, DestinationUnreachable} x parse mode {on,off} x protocol {icmp, udp/dublin, tcp} x layout {RFC 4884 compliant, legacy 128} x every quoted-prefix length giving a distinct length attribute (plus unaligned neighbours) x all object lists of length <= 3 (quick) / 4 (thorough) (+ no extension structure at all) over 11 object shapes (MPLS depth 1-3 with boundary label/EXP/S/TTL, incl. a last entry without the S bit and an S bit before the end of the object; an empty stack - RFC 4950 requires at least one entry - belongs to the corruptions, classes 2,3,255, sizes 4/5/7/8/12); oracle: views return the original-datagram field and the extension structure byte-exactly, recv_probe reports exactly the encoded objects in order. Corruptions of a subset: every truncation point and all 256 values of the length attribute, of every object-length octet and of the version octet: no panic, iteration under ceiling, payload/extension inside the message and disjoint; a message cut inside the list of objects yields exactly the objects that are still whole. Non-trivial = message carries >= 1 object, or is a corruption"));
     rep.sample(json!({"unit": "udp/v6/dublin TE compliant", "quoted_octets": 136, "objects": "[Mpls(depth 2), Other(class 2)]"}));
     rep.assumptions = vec!["MPLS stacks of the conformant half have >= 1 member and S=1 exactly on the last (RFC 4950); padding is part of the original-datagram field (DESIGN.md 5.11)".into()];
     rep.finish()
